@@ -1366,6 +1366,7 @@ class FsLog:
         self.target = [[z3.BitVecVal(c, 8) for c in comp] for comp in bytes(target).split(b"/") if comp]
         self.violations = []   # (operation, path bytes, reason)
         self.nq = 0
+        self.known = []        # (resolved components, exists) for paths this run created or removed itself
 
     def rec(self, op, ex, p, extra=None):
         self.ops.append((op, list(_path_bytes(ex, p)), extra))
@@ -1477,6 +1478,10 @@ def _fs_unit(op, follows_final):
             return err(Opaque("io::Error(fs)"))
         if op == "remove_file":
             fs.links = [l for l in fs.links if not fs.same(ex, stack, l)]
+        if op in ("remove_file", "remove_dir_all"):
+            fs.known.insert(0, (stack, False))
+        elif op in ("create_dir", "create_dir_all"):
+            fs.known.insert(0, (stack, True))
         return ok()
     return g
 
@@ -1490,6 +1495,8 @@ for _n, _ff in (("create_dir", False), ("create_dir_all", True), ("remove_file",
 @intr("std::fs::File::create", "File::create", "fs::File::create")
 def _file_create(ex, args, f):
     good, stack = _fs_call(ex, "create_file", args[0], True)
+    if good:
+        _fs().known.insert(0, (stack, True))
     return ok(FileV(args[0])) if good else err(Opaque("io::Error(fs)"))
 
 
@@ -1509,6 +1516,14 @@ def _symlink(ex, args, f):
 def _path_exists(ex, args, f):
     fs = _fs()
     fs.nq += 1
+    # a path this run created (or removed) itself is known; exists() follows a final symbolic link, whose target may or may not be there
+    where, stack, through, final = fs.classify(ex, list(_path_bytes(ex, args[0])))
+    if not final and not through:
+        if where in ("target", "ancestor"):
+            return Bool(z3.BoolVal(True))
+        for st, state in fs.known:
+            if fs.same(ex, stack, st):
+                return Bool(z3.BoolVal(state))
     return Bool(z3.Bool("fs_exists_%d_%d" % (len(fs.ops), fs.nq)))
 
 
@@ -2649,4 +2664,6 @@ def _oo_open(ex, args, f):
     fs = _fs()
     good, stack = _fs_call(ex, "create_file", args[1], not o.flags.get("create_new"))
     fs.ops[-1] = (fs.ops[-1][0], fs.ops[-1][1], ("mode at open", o.mode))
+    if good:
+        fs.known.insert(0, (stack, True))
     return ok(FileV(args[1])) if good else err(Opaque("io::Error(fs)"))
